@@ -6,6 +6,9 @@ from .base import Outcome
 from .c01 import RailsProp, cfgclass
 
 
+TAILS = ["it's fine", "100% sure: yes", "one. two. three", "a, b; c", "e=mc^2 (approx.)", "ends with a colon:", "- dash first", "#hash and $dollar {brace}", "  two  spaces  ", "ünïcödé ✓", 'with "double quotes" inside', "back\\slash and /slash"]
+
+
 class C02(RailsProp):
     id = "C02"
     level = "exploration"
@@ -29,6 +32,9 @@ class C02(RailsProp):
                 if o != "none":
                     turn["options"] = {"output-off": {"rails": {"output": False}}, "input-off": {"rails": {"input": False}}, "log": {"log": {"activated_rails": True}},
                                        "llm-params": {"llm_params": {"temperature": 0.2}}}[o]
+        if d.chance(0.4, "llm-tails"):
+            # "all LLM outputs": the text the rails are shown and the text the user gets are the same text, whatever is in it
+            sc["llm_suffix"] = {turn["tok"]: d.choice(TAILS, "tail", t) for t, turn in enumerate(sc["convs"][0]["turns"]) if d.chance(0.6, "tail?", t)}
         if d.chance(0.3, "empty-llm"):
             # an LLM that returns an empty message in some turn (not the last one): nothing to gate in that turn, and the
             # turns after it are gated like any other
